@@ -36,13 +36,13 @@ CHECKS = {
    text="For (m,n) pairs up to the bound (crossing the n=12 and repeat_exact>8 shape switches), {m,}, *, +, ? at regex, terminal and rule level, nested repetitions, JSON minItems/maxItems, min/maxProperties and minLength/maxLength, the solver decides that exactly the counts m..n are admitted for every count 0..n+3 (all prefixes of one symbolic word).",
    note="Rule level compares the compiled rule table as a CFG (Earley run outside). String length counts Unicode scalar values, escapes as one, with the documented default escape set."),
  "C10": dict(level="translation_validation", engine="E2-export-smt", design="DESIGN.md §3 C10",
-   technique="SAT product run (z3): for every (lexer state, slice) with a positive real check_subsume verdict, search a slice-language string that kills the lexeme automaton from that state (symbolic start state and bytes)",
-   text="The exporter builds the lexer as to_cgrammar does (slice regexes as extra lexemes), asks the real subsume_possible/check_subsume for every state of every lexeme automaton, and the solver shows for all positive verdicts at once that no string of the slice language up to the longest token dies from that state. Negative verdicts serve as vacuity twins.",
+   technique="SAT product run (z3): for every (lexer state, slice) with a positive real check_subsume verdict, search a slice-language string that kills the lexeme automaton from that state, or — in joint states where several lexemes are live — that makes the lexer end the lexeme before the token's last byte (symbolic start state and bytes); joint-state models are replayed natively as sliced-vs-unsliced masks",
+   text="The exporter builds the lexer as to_cgrammar does (slice regexes as extra lexemes), asks the real subsume_possible/check_subsume for every state of every lexeme automaton, and the solver shows for all positive verdicts at once that no string of the slice language up to the longest token dies from that state. The same is done for the joint automaton of all grammar lexemes and of every pair (JSON schemas and Lark grammars with lazy and greedy lexemes live together), where a positive verdict must additionally never let a token of the slice pass through a state in which the lexer ends the lexeme at once (StateDesc::lazy_accepting) before its last byte. Negative verdicts serve as vacuity twins.",
    note="Also decided at table level: the per-slice masks and remainder tries precomputed by from_topo_node (dumped natively for a synthetic multi-byte vocabulary) cover every token of the slice whichever children applied (symbolic token id). The control flow of TokenizerSlice::apply at run time and bit-for-bit mask equality need a parser state and are outside."),
  "C13": dict(level="model_checking", engine="E1-kani+E2-export-smt", design="DESIGN.md §2 C13",
-   technique="Kani/CBMC on add_bias with a symbolic start prefix and has_valid_extensions (symbolic acceptor); SAT query on every exported lexer state for the soundness of the next-byte hint forced_byte trusts",
-   text="Left-over forced bytes as mandatory prefix of the next mask: add_bias(r, set, start) equals the per-token test for every acceptor and every 1-2 byte start; has_valid_extensions agrees. E2-13.3: ForcedByte(c) implies every other byte and end-of-input are dead, ForcedEOI implies every byte is dead, for every state of every exported automaton.",
-   note="chop_tokens as a whole does not fit CBMC (12.9 GB at 400 s); its token/byte accounting loop is decided as a source slice with symbolic token lengths. forced_byte's probe, force_bytes, ff_tokens, process_prompt need the parser state and are outside."),
+   technique="Kani/CBMC on add_bias with a symbolic start prefix and has_valid_extensions (symbolic acceptor); the probe of ParserState::forced_byte as a source slice against a mock recogniser with a symbolic viable-byte set; SAT query on every exported lexer state for the soundness of the next-byte hint forced_byte trusts",
+   text="Left-over forced bytes as mandatory prefix of the next mask: add_bias(r, set, start) equals the per-token test for every acceptor and every 1-2 byte start; has_valid_extensions agrees. K13.3: the probe statements of forced_byte (cut from the current source) answer Some(b) exactly when b is the only viable byte, for all 2^256 viable sets and every lexer hint. E2-13.3: ForcedByte(c) implies every other byte and end-of-input are dead, ForcedEOI implies every byte is dead, for every state of every exported automaton.",
+   note="chop_tokens as a whole does not fit CBMC (12.9 GB at 400 s); its token/byte accounting loop is decided as a source slice with symbolic token lengths. try_push_byte behind the probe, force_bytes, ff_tokens, process_prompt need the parser state and are outside."),
  "C15": dict(level="translation_validation", engine="E2-export-smt+E1-kani", design="DESIGN.md §3 C15",
    technique="two-sided CYK encoding in z3 on Grammar::to_string before/after the real Grammar::optimize(), shared symbolic terminal word; Kani for the union-find of expand_shortcuts",
    text="For hand-written grammars, Lark snippets found in /repo's tests and docs, JSON schemas and seeded random grammars (chains, single/multi users, self reference, captures, max_tokens, nullable rules) the solver decides that before/after grammars derive the same terminal words up to N and that capture/max_tokens symbols survive; uf_find/uf_union/uf_compress_all are checked on every acyclic parent array of 6 symbols.",
@@ -56,8 +56,8 @@ CHECKS = {
    text="For vocabulary sizes at the 32-bit boundaries, every mask content, every eos id, destination buffers smaller than / equal to / larger than the mask and the three result kinds: no out-of-bounds read of the mask or write of the destination, destination words equal the mask words then zeros (plus the EOS bit on stop), no bit at or above the vocabulary size.",
    note="Buffer half only: equality of C and Rust results, pointer lifetimes and rayon scheduling are outside. V and result kind concrete per instance because Kani mis-models write_bytes with a symbolic count."),
  "C19": dict(level="model_checking", engine="E1-kani+E2-export-smt", design="DESIGN.md §2 C19",
-   technique="Kani/CBMC over the range-negation loop (source slice) and contains_token; SAT run over every exported text-lexeme automaton with a symbolic byte string containing the marker byte 0xFF",
-   text="Negated token ranges are sorted, disjoint, inside the vocabulary and contain a token iff no input range does (<=3 ranges, every u32 vocabulary size); contains_token equals range membership; every text lexeme automaton of the corpus is dead after any string containing 0xFF.",
+   technique="Kani/CBMC over the range-negation loop (source slice), contains_token and SimpleVob::allow_range; SAT run over every exported text-lexeme automaton with a symbolic byte string containing the marker byte 0xFF",
+   text="Negated token ranges are sorted, disjoint, inside the vocabulary and contain a token iff no input range does (<=3 ranges, every u32 vocabulary size); contains_token equals range membership; allow_range adds exactly the bits of the range to a vector with symbolic previous content; every text lexeme automaton of the corpus is dead after any string containing 0xFF.",
    note="Range/marker half: add_numeric_token / flush_and_check_numeric at run time, removal of the bare marker token from masks, marker-aware tokenisation are outside. The sort call inside the slice is cut out (std sort does not terminate under CBMC)."),
  "C20": dict(level="model_checking", engine="E1-kani", design="DESIGN.md §2 C20",
    technique="Kani/CBMC panic/overflow/bounds checking of arithmetic and index kernels over all inputs within stated bounds",
